@@ -915,8 +915,8 @@ func (x *Exec) siteClauses(fr *Frame, st *State, call *ssa.CallCommon, instr ssa
 }
 
 // siteClausesNamed asserts the site clauses of the function under verification that name this callee.
-// Besides calls, the pseudo callees "mapupdate" (m[k] = v: arg0 map, arg1 key, arg2 value) and
-// "builtin.delete" are sites.
+// Besides calls, the pseudo callees "mapupdate" (m[k] = v: arg0 map, arg1 key, arg2 value),
+// "maplookup" (m[k]: arg0 map, arg1 key) and "builtin.delete" are sites.
 func (x *Exec) siteClausesNamed(fr, top *Frame, st *State, callee string, instr ssa.Instruction, all []Val) {
 	if top == nil {
 		top = fr
